@@ -241,7 +241,7 @@ func replayReaderOne(sc *rScenario, realB int, seed int64, stepTimeout time.Dura
 		off := len(delivered)
 		delivered = append(delivered, got...)
 		if closedByUs {
-			if cr.n > 0 || cls == "none" && len(cr.buf) > 0 {
+			if cr.n > 0 || cls == "none" || cls == "eof" {
 				fail(i, "violation", "C17_read_after_close", fmt.Sprintf("after Close: n=%d class=%s", cr.n, cls))
 				return false
 			}
